@@ -70,6 +70,12 @@ TVerdict ==
   IN [ti |-> ti, l |-> l', tag |-> TracesS[ti].tag,
       C09 |-> C09Walk(o, 1, [ep |-> epv, doneEp |-> dep, cur |-> ""], {})
               \cup ExitWalk(o, 1, exq, [c08 |-> {}, c09 |-> {}]).c09
+              \* a plain callable has returned or raised when it was called: its one outcome is reported in the same step
+              \cup Tag(\A src \in {x \in DOMAIN D.serviceKind : D.serviceKind[x] \in {"ok", "fail"}} :
+                        Cardinality({i \in 1..Len(o) : o[i].k = "svc_called" /\ o[i].a = src})
+                        = Cardinality({i \in 1..Len(o) : o[i].k \in {"svc_done", "svc_error"} /\ o[i].a \in AllInvIds
+                                                         /\ InvRec(o[i].a).src = src}),
+                      "plain_service_call_without_exactly_one_outcome")
               \cup (IF "svcs" \in DOMAIN j THEN
                       Tag(\A x \in 1..Len(j.svcs) : j.svcs[x][1] \in ToSetS(j.config) /\ j.status # "stopped",
                           "service_alive_after_exit_or_stop")
